@@ -37,6 +37,7 @@ pub fn generate(seed: u64, tier: Tier) -> Scenario {
     if rng.chance(3, 5) {
         cfg.max_frames = 1;
     }
+    cfg.vardct = rng.chance(1, 3);
     let case = valid_stream(&mut rng, &cfg, 0, 10);
     let n = if tier == Tier::Quick { rng.usize_in(4, 10) } else { rng.usize_in(6, 24) };
     let mut ops = Vec::new();
@@ -69,6 +70,7 @@ pub fn digest(sc: &Scenario) -> u64 {
 }
 
 fn viol(seed: u64, sc: &Scenario, class: String, detail: String) -> Violation {
+    let class = if sc.case.has_vardct && !class.starts_with("panic:") { format!("{class}+vardct") } else { class };
     Violation { property: "C06".into(), check: "c06".into(), class, detail, seed, scenario: serde_json::to_value(sc).unwrap() }
 }
 
